@@ -161,7 +161,9 @@ def expectedHeldAt : List (String × String) := [
   ("closeBegin: active := none @ shard.Close", "shard.mu shard.snapshotLock"),
   ("closeFiles: wait for the flush @ shard.Close", "shard.mu"),
   ("closeFiles: close files @ shard.Close", "shard.mu"),
-  ("plan: acquire @ MmsTables.acquire", "MmsTables.inCompLock")
+  ("plan: acquire @ MmsTables.acquire", "MmsTables.inCompLock"),
+  ("plan (level compaction): walks the file list @ MmsTables.getMmsPlan", "TSSPFiles.lock(R)"),
+  ("plan (full compaction): walks the file list @ MmsTables.buildFullCompactPlan", "MmsTables.mu(R)")
 ]
 
 /-- the critical sections the model treats as atomic are bracketed by the lock it names:
@@ -171,10 +173,14 @@ exclusively for its whole duration - fix e44a3ed; `write` of the model refuses a
 lock; publish under the map lock and both list locks (exclusive); takeView under the shared
 snapshot lock, the map lock and both list locks (shared); replace / dropOoo under the list
 lock (exclusive); closeBegin under `shard.mu` and the exclusive snapshot lock; plan under
-`inCompLock`. -/
+`inCompLock`. The last two entries record an asymmetry of the code as it is: the level-compaction
+plan walks a measurement's file list under the list lock, the full-compaction plan
+(`buildFullCompactPlan`) walks it under the map lock only, while publish / replace change the
+list under the list lock with the map lock held shared - the race detector reports it (known
+finding `data_race`); the model's `plan` reads the list atomically. -/
 theorem heldAt_expected : heldAt = expectedHeldAt := by rfl
 
-def expectedModelledSites : List String := ["shard.WriteRows RLock shard.mu", "shard.WriteRows RUnlock shard.mu", "shard.writeRows RLock shard.snapshotLock", "shard.writeRows RUnlock shard.snapshotLock", "tsstoreImpl.writeSnapshot Lock shard.snapshotLock", "tsstoreImpl.writeSnapshot Unlock shard.snapshotLock", "tsstoreImpl.writeSnapshot Unlock shard.snapshotLock", "tsstoreImpl.writeSnapshot Unlock shard.snapshotLock", "tsstoreImpl.writeSnapshot Lock shard.snapshotLock", "tsstoreImpl.writeSnapshot Unlock shard.snapshotLock", "tsImmTableImpl.AddBothTSSPFiles RLock MmsTables.mu", "tsImmTableImpl.AddBothTSSPFiles RUnlock MmsTables.mu", "tsImmTableImpl.AddBothTSSPFiles RUnlock MmsTables.mu", "tsImmTableImpl.AddBothTSSPFiles Lock TSSPFiles.lock[order]", "tsImmTableImpl.AddBothTSSPFiles Unlock TSSPFiles.lock[order]", "tsImmTableImpl.AddBothTSSPFiles Lock TSSPFiles.lock[unorder]", "tsImmTableImpl.AddBothTSSPFiles Unlock TSSPFiles.lock[unorder]", "shard.cloneReaders RLock shard.snapshotLock", "shard.cloneReaders RUnlock shard.snapshotLock", "MmsTables.GetBothFilesRef RLock MmsTables.mu", "MmsTables.GetBothFilesRef RUnlock MmsTables.mu", "MmsTables.GetBothFilesRef RLock TSSPFiles.lock[order]", "MmsTables.GetBothFilesRef RUnlock TSSPFiles.lock[order]", "MmsTables.GetBothFilesRef RLock TSSPFiles.lock[unorder]", "MmsTables.GetBothFilesRef RUnlock TSSPFiles.lock[unorder]", "MmsTables.ReplaceFiles RLock MmsTables.mu", "MmsTables.ReplaceFiles RUnlock MmsTables.mu", "MmsTables.ReplaceFiles Lock TSSPFiles.lock", "MmsTables.ReplaceFiles Unlock TSSPFiles.lock", "MmsTables.deleteUnorderedFiles Lock TSSPFiles.lock[unorder]", "MmsTables.deleteUnorderedFiles Unlock TSSPFiles.lock[unorder]", "MmsTables.deleteUnorderedFiles Lock MmsTables.mu", "MmsTables.deleteUnorderedFiles Unlock MmsTables.mu", "shard.Close Lock shard.mu", "shard.Close Unlock shard.mu", "shard.Close Lock shard.snapshotLock", "shard.Close Unlock shard.snapshotLock", "MmsTables.acquire Lock MmsTables.inCompLock", "MmsTables.acquire Unlock MmsTables.inCompLock"]
+def expectedModelledSites : List String := ["shard.WriteRows RLock shard.mu", "shard.WriteRows RUnlock shard.mu", "shard.writeRows RLock shard.snapshotLock", "shard.writeRows RUnlock shard.snapshotLock", "tsstoreImpl.writeSnapshot Lock shard.snapshotLock", "tsstoreImpl.writeSnapshot Unlock shard.snapshotLock", "tsstoreImpl.writeSnapshot Unlock shard.snapshotLock", "tsstoreImpl.writeSnapshot Unlock shard.snapshotLock", "tsstoreImpl.writeSnapshot Lock shard.snapshotLock", "tsstoreImpl.writeSnapshot Unlock shard.snapshotLock", "tsImmTableImpl.AddBothTSSPFiles RLock MmsTables.mu", "tsImmTableImpl.AddBothTSSPFiles RUnlock MmsTables.mu", "tsImmTableImpl.AddBothTSSPFiles RUnlock MmsTables.mu", "tsImmTableImpl.AddBothTSSPFiles Lock TSSPFiles.lock[order]", "tsImmTableImpl.AddBothTSSPFiles Unlock TSSPFiles.lock[order]", "tsImmTableImpl.AddBothTSSPFiles Lock TSSPFiles.lock[unorder]", "tsImmTableImpl.AddBothTSSPFiles Unlock TSSPFiles.lock[unorder]", "shard.cloneReaders RLock shard.snapshotLock", "shard.cloneReaders RUnlock shard.snapshotLock", "MmsTables.GetBothFilesRef RLock MmsTables.mu", "MmsTables.GetBothFilesRef RUnlock MmsTables.mu", "MmsTables.GetBothFilesRef RLock TSSPFiles.lock[order]", "MmsTables.GetBothFilesRef RUnlock TSSPFiles.lock[order]", "MmsTables.GetBothFilesRef RLock TSSPFiles.lock[unorder]", "MmsTables.GetBothFilesRef RUnlock TSSPFiles.lock[unorder]", "MmsTables.ReplaceFiles RLock MmsTables.mu", "MmsTables.ReplaceFiles RUnlock MmsTables.mu", "MmsTables.ReplaceFiles Lock TSSPFiles.lock", "MmsTables.ReplaceFiles Unlock TSSPFiles.lock", "MmsTables.deleteUnorderedFiles Lock TSSPFiles.lock[unorder]", "MmsTables.deleteUnorderedFiles Unlock TSSPFiles.lock[unorder]", "MmsTables.deleteUnorderedFiles Lock MmsTables.mu", "MmsTables.deleteUnorderedFiles Unlock MmsTables.mu", "shard.Close Lock shard.mu", "shard.Close Unlock shard.mu", "shard.Close Lock shard.snapshotLock", "shard.Close Unlock shard.snapshotLock", "MmsTables.acquire Lock MmsTables.inCompLock", "MmsTables.acquire Unlock MmsTables.inCompLock", "MmsTables.getMmsPlan RLock TSSPFiles.lock", "MmsTables.getMmsPlan RUnlock TSSPFiles.lock", "MmsTables.buildFullCompactPlan RLock MmsTables.mu", "MmsTables.buildFullCompactPlan RUnlock MmsTables.mu"]
 
 theorem modelledSites_expected : modelledSites = expectedModelledSites := by rfl
 
